@@ -110,11 +110,44 @@ def _single_faults(tbl):
     return faults
 
 
+def _case(name, tbl, ctxs, fe):
+    return {
+        "format": 1,
+        "property": PROP,
+        "case": name,
+        "env": {"dirty": {"pattern": "flag", "byte": 4}},
+        "table": tbl,
+        "config": {"contexts": ctxs, "window_form": "iso", "carrier": "dict", "layout": "contexts"},
+        "frontends": [fe],
+        "schedule": [0],
+        "abandon": [],
+        "reruns": [],
+        "share_config": False,
+    }
+
+
 def enumerate_cases():
     """Every single fault of every kind at every position of every base config,
-    on every stream front end - a finite space, enumerated completely."""
+    on every stream front end - a finite space, enumerated completely - plus a
+    whole context made only of absent streams at every context position."""
     tbl, bases = _base_family()
     cases = []
+    t_end = tbl["times"][-1]
+    for bname, contexts in bases:
+        for nghost in (1, 2):
+            dead = {
+                "window": {"starting": t_end + 7200, "ending": t_end + 10800},
+                "entries": [
+                    {"sid": g, "module": "qartod", "test": "spike_test", "params": {"suspect_threshold": 1}, "role": "F5"}
+                    for g in ("ghost", "v9")[:nghost]
+                ],
+                "dead": True,
+            }
+            for pos in range(len(contexts) + 1):
+                ctxs = copy.deepcopy(contexts)
+                ctxs.insert(pos, copy.deepcopy(dead))
+                for fe in STREAM_FES:
+                    cases.append(_case(f"{bname}/dead-context-{nghost}/ctxpos{pos}/{fe}", tbl, ctxs, fe))
     for bname, contexts in bases:
         for f in _single_faults(tbl):
             for ci, c in enumerate(contexts):
@@ -221,6 +254,8 @@ def execute(scn):
                 bump("faults", "F6-data-dependent" if e["role"] == "F6d" else e["role"])
                 if e["role"] == "F6" and e["params"].get("scribble"):
                     bump("faults", "F6-scribble")
+        if c.get("dead"):
+            bump("faults", "F5-whole-context")
 
     end_state = {}
     for r in reps:
